@@ -259,6 +259,8 @@ def signature(op, what):
     if a[0] == "lim":
         return f"lim:{a[1]}:signed-limit" if "two's complement" in what else f"lim:{a[1]}:limit"
     if a[0] in ("imp", "imph"):
+        if "expanded sub-index" in what and ": pdo is" in what:
+            return f"{a[0]}:compact-pdo"
         for key, cls in (("min is", "limit-min"), ("max is", "limit-max"), ("def is", "default"),
                          ("val is", "value"), ("not imported", "rejected"), ("objects differ", "objects"),
                          ("is not expanded", "compact"), ("expanded sub-index", "compact"),
@@ -768,7 +770,8 @@ LEVEL_TEXT = ("Lean 4 theorems over the parsed document, for every well-formed d
               "variable field by field; whole-dictionary import_write (importEds (write sod) = dictionary assembled "
               "with add_object/add_member from the description, incl. device info, comments, bit rate, node id, dummy "
               "entries, records, arrays, compact arrays with/without name list); lookups by index / name / "
-              "'Parent.Child' reach the same object; compact expansion of every announced entry up to 254, end to end; "
+              "'Parent.Child' reach the same object; compact expansion of every announced entry up to 254 (type, access, "
+              "PDO-mappability, default, limits), end to end; "
               "histories of imports by path (each import is a function of the file's current content); model tied "
               "to the code by generated tables and "
               "a differential run on texts from an independent Python writer plus mutated texts")
